@@ -542,6 +542,23 @@ fn mutate(ts: &TokenStream, rng: &mut Rng) -> (TokenStream, &'static str) {
     (out.into_iter().collect(), kind)
 }
 
+/// `.., name = <literal>[,]` with that literal inside an invisible group
+fn group_last_literal(ts: TokenStream) -> Option<TokenStream> {
+    let mut v: Vec<TokenTree> = ts.into_iter().collect();
+    let mut last = v.len().checked_sub(1)?;
+    if matches!(&v[last], TokenTree::Punct(p) if p.as_char() == ',') {
+        last = last.checked_sub(1)?;
+    }
+    let TokenTree::Literal(l) = v[last].clone() else { return None };
+    if last == 0 || !matches!(&v[last - 1], TokenTree::Punct(p) if p.as_char() == '=') {
+        return None;
+    }
+    let mut g = proc_macro2::Group::new(proc_macro2::Delimiter::None, std::iter::once(TokenTree::Literal(l.clone())).collect());
+    g.set_span(l.span());
+    v[last] = TokenTree::Group(g);
+    Some(v.into_iter().collect())
+}
+
 fn splitting_case(rng: &mut Rng, c: &mut Collector) {
     let depth = rng.below(5);
     let items = gen_list(rng, depth);
@@ -549,6 +566,19 @@ fn splitting_case(rng: &mut Rng, c: &mut Collector) {
     let Ok(ts) = syn::parse_str::<TokenStream>(&text) else {
         c.discarded += 1;
         return;
+    };
+    // now and then the value of the last item arrives as a macro fragment: the literal inside an
+    // invisible group (its span kept); nothing about the list changes by that
+    let ts = if rng.chance(1, 5) {
+        match group_last_literal(ts.clone()) {
+            Some(g) => {
+                c.count("split.last-value-in-invisible-group");
+                g
+            }
+            None => ts,
+        }
+    } else {
+        ts
     };
     c.eval();
     let res = match catch(|| NestedMeta::parse_meta_list(ts.clone())) {
